@@ -39,13 +39,31 @@ def node_harness(kind):
     h.need_globals = ['_ZTIN10chaiscript9exception10eval_errorE', '_ZTIN10chaiscript11Boxed_ValueE']
     return h
 
+def stack_harness(tier):
+    SH = r'chaiscript::detail::Stack_Holder&'
+    names = {1: 'new_scope', 2: 'pop_scope', 3: 'new_stack', 4: 'pop_stack', 5: 'new_function_call', 6: 'pop_function_call', 7: 'new_scope+pop_scope'}
+    roots = [DE + r'new_scope\(' + SH + r'\)$', DE + r'pop_scope\(' + SH + r'\)$', DE + r'new_stack\(' + SH + r'\)$', DE + r'pop_stack\(' + SH + r'\)$', DE + r'new_function_call\(' + SH, DE + r'pop_function_call\(' + SH]
+    stubs = [DE + r'save_function_params\(std::vector']
+    d = {'F_NEW_SCOPE': core.csym(FAM, roots[0]), 'F_POP_SCOPE': core.csym(FAM, roots[1]), 'F_NEW_STACK': core.csym(FAM, roots[2]), 'F_POP_STACK': core.csym(FAM, roots[3]), 'F_NEW_CALL': core.csym(FAM, roots[4]), 'F_POP_CALL': core.csym(FAM, roots[5]),
+         'SAVE_PARAMS_VEC': core.csym(FAM, DE + r'save_function_params\(std::vector')}
+    shapes = []
+    for op, nm in names.items():
+        for ns in (1, 2):
+            for sc in ((1, 2) if op in (1, 2, 7) else (1,)):
+                for spare in (0, 1):
+                    if op == 4 and ns == 1: continue       # the outermost stack is never popped
+                    wit = ('witness: outermost', 'witness: nested') if op in (5, 6) else ('witness: done',)
+                    shapes.append(dict(d, OP=op, NS=ns, S=sc, C=sc, SPARE=spare, _tag='%s,stacks=%d,scopes=%d,spare=%d' % (nm, ns, sc, spare), _witness=wit))
+    return Harness('S0.stack_primitives', FAM, roots, 'c09_stack.c', stubs=stubs, cuts=[r'Boxed_Value::~Boxed_Value'], shapes=shapes, opts=['--unwind', '5'], timeout=300, mem_gb=6, inputs=['d0'],
+                   note='Stack_Holder image with 1-2 stacks, 1-2 scopes / saved-parameter lists, with and without spare vector capacity; call depth symbolic')
+
 def harnesses(tier):
     from props import C10, C07
-    hs = [node_harness(k) for k in KINDS]
+    hs = [node_harness(k) for k in KINDS] + [stack_harness(tier)]
     t = C10.try_harness(tier); t.name = 'N.Try(scope balance)'; hs.append(t)
     e = C07.equation_harness(); e.name = 'N.Equation(call balance)'; hs.append(e)
     return hs
 
-ASSUMPTIONS = ['children and get_bool_condition are abstract; new_scope/pop_scope are counters (their real code on a real Stack_Holder: harness S0, to be added)',
+ASSUMPTIONS = ['children and get_bool_condition are abstract; in the node harnesses new_scope/pop_scope are counters - their real code on a Stack_Holder image is harness S0',
                'the induction over the tree (each node restores the depth if its children do) is an argument, not something the solver sees']
 OUTSIDE = ['nodes not listed (Ranged_For, Fun_Call, Lambda, Def, Dot_Access, Method ...)', 'Thread_Storage lookup of the holder (C14)']
